@@ -316,6 +316,30 @@ def insertChain (cmp : α → α → Int) (s : Store α) (key : α) : Option (St
   let s := { s with count := s.count + 1 }               -- 289  ++this->count;
   pure (s, z)                                            -- 290  return z;
 
+/-- `chain<Node>::insert(Node* z, Comp)`, utility:253-291, applied to a node object `z` that the caller has handed over
+    BEFORE (an intrusive container does not own its nodes: nothing stops a client from offering the same object twice).
+    Nothing is constructed: the cell at `z` is whatever the earlier insertion made of it, links included.  The statements
+    are those of `insertChain`; the key compared is the one stored in `z`.  On a store that represents a search tree
+    containing `z`, the descent stops at an element equal to `*z` (`found`), neither branch of 276/281 is taken, and only
+    `count` moves — the driver prints what this function computes, so a re-offered node that disturbs the real tree
+    (links of `z` written before the descent has decided) shows as a difference. -/
+def insertChainAt (cmp : α → α → Int) (s : Store α) (z : Nat) : Option (Store α × Nat) := do
+  let key := s.key z
+  -- 258-261  slot = &this->root; up = nullptr; found = false;
+  let (slot, up) ← chainLoop cmp key (s.count + 1) s Slot.root none false
+  let s ←
+    if s.root = none then                                -- 276  if (this->root == nullptr)
+      let s := { s with root := some z }                 -- 278     this->root = z;
+      pure (s.setColor z .black)                         -- 279     z->color = Color::Black;
+    else if s.deref slot = none then                     -- 281  else if (*slot == nullptr)
+      let s := s.assign slot (some z)                    -- 283     *slot = z;
+      let s := s.setParent z up                          -- 284     z->parent() = up;
+      let s := s.setColor z .red                         -- 285     z->color = Color::Red;
+      s.fixupLoop (s.count + 2) z                        -- 286     this->fixup_insert(z);
+    else pure s
+  let s := { s with count := s.count + 1 }               -- 289  ++this->count;
+  pure (s, z)                                            -- 290  return z;
+
 /-- `container::find` (utility:344-360) / `chain::find` (utility:233-251): walk down from the root. -/
 def findLoop (cmp : α → α → Int) (key : α) : Nat → Store α → Option Nat → Option (Option Nat)
   | 0, _, _ => none
